@@ -184,7 +184,10 @@ impl SymbolTable {
         match term {
             Term::Variable(i) => format!("${}", self.print_symbol_default(*i as u64)),
             Term::Integer(i) => i.to_string(),
-            Term::Str(index) => format!("\"{}\"", self.print_symbol_default(*index)),
+            Term::Str(index) => format!(
+                "\"{}\"",
+                escape_string(&self.print_symbol_default(*index))
+            ),
             Term::Date(d) => OffsetDateTime::from_unix_timestamp(*d as i64)
                 .ok()
                 .and_then(|t| t.format(&Rfc3339).ok())
@@ -226,7 +229,7 @@ impl SymbolTable {
                         crate::datalog::MapKey::Str(s) => {
                             format!(
                                 "\"{}\": {}",
-                                self.print_symbol_default(*s as u64),
+                                escape_string(&self.print_symbol_default(*s as u64)),
                                 self.print_term(term)
                             )
                         }
@@ -322,6 +325,21 @@ impl SymbolTable {
             queries.join(" or ")
         )
     }
+}
+
+/// Escapes a string so that it can be printed as a Datalog string literal: the parser
+/// understands exactly the escapes `\\`, `\"` and `\n` inside double quotes.
+pub(crate) fn escape_string(s: &str) -> String {
+    let mut out = String::with_capacity(s.len());
+    for c in s.chars() {
+        match c {
+            '\\' => out.push_str("\\\\"),
+            '"' => out.push_str("\\\""),
+            '\n' => out.push_str("\\n"),
+            c => out.push(c),
+        }
+    }
+    out
 }
 
 impl Default for SymbolTable {
